@@ -1,5 +1,7 @@
 package stackage
 
+import "sync"
+
 // C19 — Defrag removes every nil gap and nothing else.
 
 // p: n, nesting (0 flat, 1 inside a Stack, 2 as a Condition's expression, 3 two
@@ -11,6 +13,9 @@ func VH_C19(p []int) {
 	n := p[0]
 	s := List()
 	cfg, _ := s.config()
+	if nondetChoice(2) == 1 {
+		cfg.mtx = &sync.Mutex{} // locking enabled: every Defrag must hand the lock back
+	}
 	optName := ""
 	if len(p) > 3 {
 		if p[3]&1 != 0 {
@@ -89,6 +94,20 @@ func VH_C19(p []int) {
 	verifAssert(s.Err() == nil, "err")
 	if p[1] == 1 || p[1] == 4 || p[1] == 5 {
 		verifAssert(outer.Len() == 2, "outer-untouched")
+	}
+	if cfg.mtx != nil {
+		free := cfg.mtx.TryLock()
+		verifAssert(free, "mutex-released")
+		if free {
+			cfg.mtx.Unlock()
+			// and again, now that nothing is left to compact
+			outer.Defrag()
+			free = cfg.mtx.TryLock()
+			verifAssert(free, "mutex-released-after-second-defrag")
+			if free {
+				cfg.mtx.Unlock()
+			}
+		}
 	}
 	verifReach("end")
 }
